@@ -34,7 +34,7 @@ ASSUMPTIONS = [
     "dogpile regions are keyed by key only (third-party plugin), so each template gets regions of its own",
 ]
 MIN_NONTRIVIAL = 100
-REQUIRED_COUNTERS = ["renders", "inherited_cached_renders", "recompiles_under_the_same_uri", "cache_hits_predicted", "reexecutions_after_invalidate", "backend_calls_logged", "kwargs_checked", "disabled_renders"]
+REQUIRED_COUNTERS = ["renders", "inherited_cached_renders", "recompiles_under_the_same_uri", "cache_hits_predicted", "reexecutions_after_invalidate", "backend_calls_logged", "kwargs_checked", "disabled_renders", "included_cached_renders"]
 
 _st = {"counter": 0}
 
@@ -500,6 +500,8 @@ def gen_cases(tier, seed):
         yield {"kind": "inherit", "backend": b}
     for b in ("rec", "beaker-memory", "beaker-file"):
         yield {"kind": "raising", "backend": b}
+    for b in ("rec", "beaker-memory", "beaker-file"):
+        yield {"kind": "include", "backend": b}
     n = 4000 if tier == "quick" else 40000
     per = 10
     for i in range(n // per):
@@ -573,6 +575,72 @@ def run_inherit(case, res):
     res.nontrivial("c17-inherit", backend)
 
 
+def run_include(case, res):
+    """cached sections of an INCLUDED template belong to the included template's own cache - with or without an
+    include_error_handler on the lookup: same-named sections of includer and included never mix, and each
+    template's invalidate_def reaches its own entries only"""
+    L = _st["TemplateLookup"]
+    backend = case["backend"]
+    for handler in (None, "returns-false", "returns-true"):
+        _st["counter"] += 1
+        uid = "%d_%d" % (os.getpid(), _st["counter"])
+        impl, base_args, dog = make_backend(backend, uid + "_inc")
+        Rec.store.clear()
+        Rec.created.clear()
+        del Rec.log[:]
+        Rec.pass_context = False
+        kw = {}
+        if handler:
+            kw["include_error_handler"] = (lambda context, error: handler == "returns-true")
+        lk = L(cache_impl=impl, cache_args=dict(base_args), **kw)
+        pre = "/n%s/" % uid
+        lk.put_string(pre + "outer.html", '<%def name="box()" cached="True">[outer box ${tick(\'ob\')}|${x}]</%def>${box()}|<%include file="inner.html"/>|${box()}')
+        lk.put_string(pre + "inner.html", '<%def name="box()" cached="True">[inner box ${tick(\'ib\')}|${x}]</%def>'
+                                          '<%def name="item()" cached="True">[inner item ${tick(\'ii\')}|${x}]</%def>${box()}${item()}')
+        ticks = {}
+
+        def tick(n):
+            ticks[n] = ticks.get(n, 0) + 1
+            return ticks[n]
+
+        steps = [
+            ("render", "x1", "[outer box 1|x1]|[inner box 1|x1][inner item 1|x1]|[outer box 1|x1]"),
+            ("render", "x2", "[outer box 1|x1]|[inner box 1|x1][inner item 1|x1]|[outer box 1|x1]"),
+            ("inv-inner-box", None, None),
+            ("render", "x3", "[outer box 1|x1]|[inner box 2|x3][inner item 1|x1]|[outer box 1|x1]"),
+            ("inv-outer-box", None, None),
+            ("render", "x4", "[outer box 2|x4]|[inner box 2|x3][inner item 1|x1]|[outer box 2|x4]"),
+            ("render-inner", "x5", "[inner box 2|x3][inner item 1|x1]"),
+        ]
+        for name, x, exp in steps:
+            res.evaluations += 1
+            what = "backend=%s include_error_handler=%s, cached sections of an included template, step %s" % (backend, handler, name)
+            try:
+                if name == "inv-inner-box":
+                    lk.get_template(pre + "inner.html").cache.invalidate_def("box")
+                    continue
+                if name == "inv-outer-box":
+                    lk.get_template(pre + "outer.html").cache.invalidate_def("box")
+                    continue
+                out = lk.get_template(pre + ("inner.html" if name == "render-inner" else "outer.html")).render_unicode(tick=tick, x=x)
+            except Exception as e:
+                res.violate("include-cache-raises", "%s: %s: %s" % (what, type(e).__name__, e))
+                break
+            res.count("included_cached_renders")
+            if out != exp:
+                res.violate("included-cached-output", "%s (x=%s) gave %r, expected %r" % (what, x, out, exp),
+                            witness="cached defs of the same name in an including and an included template")
+                break
+        if backend == "rec":
+            ids = {u: lk.get_template(pre + u).cache.id for u in ("outer.html", "inner.html")}
+            for op, cid, key, kw2 in Rec.log:
+                if key == "render_item" and cid != ids["inner.html"]:
+                    res.violate("entry-under-wrong-template", "backend call %s(%r) was made under cache id %r, the section belongs to %r (include_error_handler=%s)"
+                                % (op, key, cid, ids["inner.html"], handler))
+                    break
+        res.nontrivial("c17-include", backend, handler)
+
+
 def run_raising(case, res):
     """a cached section whose body raises: the exception propagates, nothing is stored for its key, and the body runs
     again on the next render"""
@@ -636,6 +704,9 @@ def run_case(case):
         return res
     if case["kind"] == "inherit":
         run_inherit(case, res)
+        return res
+    if case["kind"] == "include":
+        run_include(case, res)
         return res
     if case["kind"] == "batch":
         for j in range(case["n"]):
